@@ -361,3 +361,39 @@ def per_evaluation_state(ctx):
     # Fold / Group accumulators: see C15.1 / C16.1
     # per-call root objects of glom(): see C07.3
     ctx.floor(2)
+
+
+MATERIALISERS = {'dict', 'list', 'tuple', 'OrderedDict', 'frozenset', 'set'}
+
+
+@rule('C06.18')
+def vars_base_consumed_at_construction(ctx):
+    """Vars(base) may be given a one-shot iterable of pairs.  Every evaluation builds its
+    ScopeVars with dict(base); if the first evaluation were the one to drain the iterator the
+    second evaluation of the same spec object would see different bindings.  The constructor
+    therefore consumes / materialises base itself before storing it (``dict(base)``), so that
+    all evaluations agree."""
+    u = ctx.unit('core.Vars.__init__')
+    cfg = ctx.cfg(u)
+    base = u.params[1]
+    stores = [n for n in cfg.nodes if n.kind == 'stmt' and isinstance(n.ast, ast.Assign)
+              and isinstance(n.ast.targets[0], ast.Attribute) and is_name(n.ast.targets[0].value, u.params[0])
+              and base in {x.id for x in ast.walk(n.ast.value) if isinstance(x, ast.Name)}]
+    ctx.require(len(stores) == 1, 'Vars.__init__: the store of base not found')
+
+    def materialises(e):
+        return isinstance(e, ast.Call) and is_name(e.func) and e.func.id in MATERIALISERS and len(e.args) == 1 and is_name(e.args[0], base)
+    st = stores[0]
+    ok = materialises(st.ast.value)
+    wit = None
+    if not ok:
+        mats = {n for n in cfg.nodes if n.ast is not None and n.kind == 'stmt' and any(materialises(x) for x in ast.walk(n.ast))}
+        ok, wit = cfg.must_pass(cfg.entry, {st}, mats, labels=lambda l: l != 'exc')
+        ok = ok and bool(mats)
+    ctx.ob(ok, u, 'base is consumed (dict(base)) on every path before it is stored: %s' % norm(st.ast),
+           '' if ok else 'a one-shot iterable stored as it is: the first evaluation drains it, later evaluations of the same spec see no bindings',
+           node=st.ast)
+    gu = ctx.unit('core.Vars.glomit')
+    reads = [n for n in gu.own_nodes() if isinstance(n, ast.Attribute) and is_name(n.value, gu.params[0]) and n.attr == st.ast.targets[0].attr]
+    ctx.ob(bool(reads), gu, 'evaluation reads the stored base (%d)' % len(reads))
+    ctx.floor(2)
